@@ -44,8 +44,8 @@ PROPS = {
                      "the total weight is kept and merging of equivalent points is lossless for every processing order; for tetrahedral grids that the "
                      "five starting tetrahedra tile the cell (trigonal wedge, 60 and 120 degrees: positive non-overlapping volumes, weights sum to "
                      "one), that every split keeps volume and weight with weight proportional to volume and children tiling the parent, and that the "
-                     "splitting loops terminate when no threshold equals an attained value. A seeded sample of the enumerated states (quick: 900 "
-                     "grids, 300 refinement steps, all tetrahedral runs, 150 splits) is executed on the real code and compared exactly in integers up "
+                     "splitting loops terminate when no threshold equals an attained value. A seeded sample of the enumerated states (quick: 600 "
+                     "grids, 200 refinement steps, all tetrahedral runs, 100 splits) is executed on the real code and compared exactly in integers up "
                      "to symmetry (weight per orbit / class, no orbit twice; image cells tile the zone for groups mapping cells to cells); seeded "
                      "random calls, chains of 2 refinement steps and real 3-D run() executions with 2 adaptive iterations are recorded and every "
                      "property clause of KMeshRec is evaluated on them by TLC.",
@@ -110,13 +110,13 @@ def cfg_tetra(metrics, tvq, tsq, ns, keep, even=False, breakeq=False):
 
 def run_jobs(jobs, nworkers, tag):
     """jobs: name -> (module, cfg, dump).  The TLC runs are independent: at most three run concurrently (small ones with
-    2 workers: TLC evaluates the constant definitions once per worker)."""
+    1 worker: TLC evaluates the constant definitions once per worker)."""
     res = {}
 
     def one(item):
         name, (module, cfg, dump) = item
-        small = name.endswith("_v0") or name.endswith("_groups")
-        st = tlc.run_tlc(module, cfg, f"{tag}_{name}", workers=2 if small else nworkers, dump=dump, timeout=3000, heap="4g")
+        small = name.endswith("_v0") or name.endswith("groups") or name.endswith("_eq")
+        st = tlc.run_tlc(module, cfg, f"{tag}_{name}", workers=1 if small else nworkers, dump=dump, timeout=3000, heap="4g")
         if st.get("timeout"):
             raise MachineryError(f"TLC timed out on {name}")
         if st.get("error") and not st.get("violation"):
@@ -624,7 +624,7 @@ def record_calls(rep, rng, thorough, usable, tag, recs):
     names = sorted(usable)
     nmax = 6 if thorough else 5
     # ---- Grid.get_K_list
-    for _ in range(160 if thorough else 40):
+    for _ in range(160 if thorough else 30):
         grp = rng.choice(names)
         mats = W.mats_of(grp)
         n = tuple(rng.randint(1, nmax) for _ in range(3))
@@ -649,7 +649,7 @@ def record_calls(rep, rng, thorough, usable, tag, recs):
     # ---- KpointBZparallel.divide on random K-points (levels 0 and 1, anisotropic meshes)
     ndiv_n = 0
     tries = 0
-    while ndiv_n < (240 if thorough else 60) and tries < 20000:
+    while ndiv_n < (240 if thorough else 40) and tries < 20000:
         tries += 1
         grp = rng.choice(names)
         pg = W.pointgroup(grp)
@@ -701,7 +701,7 @@ def record_calls(rep, rng, thorough, usable, tag, recs):
     # ---- exclude_equiv_points on random lists with forced equivalences, old and new points
     nex = 0
     tries = 0
-    while nex < (200 if thorough else 50) and tries < 20000:
+    while nex < (200 if thorough else 36) and tries < 20000:
         tries += 1
         grp = rng.choice(names)
         pg = W.pointgroup(grp)
@@ -758,7 +758,7 @@ def record_calls(rep, rng, thorough, usable, tag, recs):
     #      refined again, exclusion against old points of level >= 1
     nch = 0
     tries = 0
-    while nch < (40 if thorough else 12) and tries < 2000:
+    while nch < (40 if thorough else 8) and tries < 2000:
         tries += 1
         grp = rng.choice(names)
         mats = W.mats_of(grp)
@@ -842,7 +842,7 @@ def record_calls(rep, rng, thorough, usable, tag, recs):
     ntet = 0
     pools = {}
     tries = 0
-    while ntet < (120 if thorough else 30) and tries < 20000:
+    while ntet < (120 if thorough else 20) and tries < 20000:
         tries += 1
         metric = rng.choice(["cub", "tet", "ort"])
         if metric not in pools:
@@ -934,6 +934,46 @@ def splittable(p, ndiv, metric):
     return all(int(x) % ndiv == 0 for x in (np.array(p[0][b]) - np.array(p[0][a]))) and p[1] % ndiv == 0
 
 
+def corrupted_records(recs):
+    """one corrupted copy per kind of record, with the clause that must reject it"""
+    badrecs = []
+
+    def pick(pred):
+        for r in recs:
+            if pred(r):
+                return copy.deepcopy(r)
+        return None
+    r = pick(lambda r: r["fn"] == "klist" and r["ok"] and len(r["out"]) > 1)
+    if r:
+        r["out"][-1][3] += 1
+        badrecs.append((r, "sum_to_one"))
+    r = pick(lambda r: r["fn"] == "klist" and r["ok"] and r["sym"] and 1 < len(r["out"]) < r["n"][0] * r["n"][1] * r["n"][2])
+    if r:      # a retained point replaced by another one: an orbit twice, another one lost
+        r["out"][-1][:3] = r["out"][0][:3]
+        badrecs.append((r, "same_up_to_symmetry"))
+    r = pick(lambda r: r["fn"] == "divide" and len(r["out"]) > 1)
+    if r:
+        r["out"][0][0] = (r["out"][0][0] + 1) % (2 * r["n"][0] * r["nd"][0] ** r["L"])
+        badrecs.append((r, "same_up_to_symmetry"))
+    r = pick(lambda r: r["fn"] == "exclude" and len(r["out"]) < len(r["inp"]))
+    if r:
+        r["out"][0][4] -= 1
+        badrecs.append((r, "weight_kept"))
+    r = pick(lambda r: r["fn"] == "refine" and r["sym"] and len(r["after"]) > len(r["before"]))
+    if r:
+        r["after"][-1][4] += 1
+        badrecs.append((r, "weight_kept"))
+    r = pick(lambda r: r["fn"] == "tsplit")
+    if r:
+        r["out"][0][1] += 1
+        badrecs.append((r, "split_exact"))
+    r = pick(lambda r: r["fn"] == "tgrid" and len(r["out"]) > 3)
+    if r:
+        del r["out"][-1]
+        badrecs.append((r, "volume_kept"))
+    return badrecs
+
+
 # ------------------------------------------------------------------------------------------------------------------
 def check(pid, tier):
     rep = Report(pid, tier, "model_checking")
@@ -990,10 +1030,10 @@ def _check(rep, tier, tag):
             "grid_tab": ("MC_KMeshGridTab.tla", cfg_grid(4, False), True),
             "divide": ("MC_KMeshDivide.tla", cfg_divide(QUICK_DIV_NAMES, [111, 211, 221, 222], [111, 110, 100], [2, 3], 3,
                                                         ["cub_Oh", "cub_T", "tet_D4h", "tet_S4", "ort_D2h", "ort_mM2", "rho_D3d"], False, False), True),
-            "excl": ("MC_KMeshExcl.tla", cfg_excl(3, 5, False), False),
+            "excl": ("MC_KMeshExcl.tla", cfg_excl(3, 4, False), False),
             "tetra": ("MC_KMeshTetra.tla", cfg_tetra(["cub", "ort", "hex", "hex120"], [9, 2], [9, 4, 2], 4, False), True),
         }
-        ngrid, ndivr, nsplit, ntile = 900, 300, 150, 60
+        ngrid, ndivr, nsplit, ntile = 600, 200, 100, 40
     # sensitivity self-tests: plausible wrong variants that TLC must reject
     jobs["divide_v0"] = ("MC_KMeshDivide.tla", cfg_divide(["ort_D2h", "tet_C4v"], [111, 211], [111, 100], [2, 3], 0, [], False, True), False)
     jobs["excl_v0"] = ("MC_KMeshExcl.tla", cfg_excl(2, 3, True), False)
@@ -1002,7 +1042,8 @@ def _check(rep, tier, tag):
     import wannierberri  # noqa: F401  (lazy: costs seconds)
     probes = {(m, w): stall_probe(m, w) for m, w in ([("cub", "size"), ("cub", "volume"), ("ort", "size"), ("ort", "volume")] if thorough else [("cub", "size"), ("ort", "volume")])}
     stalls = [k_ for k_, v in probes.items() if v == "stalls"]
-    jobs["tetra_eq"] = ("MC_KMeshTetra.tla", cfg_tetra(["cub", "ort"], [8, 4], [8, 4], 4, False, even=True, breakeq=not stalls), False)
+    jobs["tetra_eq"] = ("MC_KMeshTetra.tla", cfg_tetra(["cub", "ort"] if thorough else ["cub"], [8, 4] if thorough else [8], [8, 4] if thorough else [8], 4, False,
+                                                      even=True, breakeq=not stalls), False)
     res = run_jobs(jobs, nw, tag)
     st_eq = res.pop("tetra_eq")
     obs = dict(what="split_tetra_size(dkmax) / split_tetra_volume(vmax) with the threshold equal to the largest attained size / volume "
@@ -1057,7 +1098,14 @@ def _check(rep, tier, tag):
         optional("recorded calls (partly)", record_calls, rep, rng, thorough, usable, tag, recs)
     nown = len(recs)
     recs += [r for _, _, r in fallback]
-    stv, bad = ftable.validate_records("KMeshRec.tla", ftable.REC_CFG, recs, tag, chunk=400)
+    # binding self-test: corrupted copies of recorded calls must be rejected (validated in the same TLC run)
+    badrecs = corrupted_records(recs[:nown])
+    if len(badrecs) < 5 and not rep.violations and usable and not W.SKIPPED:
+        raise MachineryError(f"binding self-test: only {len(badrecs)} kinds of records to corrupt")
+    stv, bad = ftable.validate_records("KMeshRec.tla", ftable.REC_CFG, recs + [b for b, _ in badrecs], tag, chunk=1000)
+    b2 = {j: bad.pop(len(recs) + j, []) for j in range(len(badrecs))}
+    stv["distinct"] -= len(badrecs)          # the corrupted copies are not evidence
+    stv["generated"] -= 2 * len(badrecs)
     rep.add_tlc("c06_records", stv)
     rep.add_traces(len(recs))
     fnname = dict(klist="Grid.get_K_list", divide="KpointBZparallel.divide", exclude="exclude_equiv_points", refine="refinement_step",
@@ -1099,48 +1147,9 @@ def _check(rep, tier, tag):
         if r["fn"] == "divide" and len(r["out"]) > 1:
             rep.sample(r)
             break
-    # binding self-test: corrupted records must be rejected
-    badrecs = []
-
-    def pick(pred):
-        for r in recs[:nown]:
-            if pred(r):
-                return copy.deepcopy(r)
-        return None
-    r = pick(lambda r: r["fn"] == "klist" and r["ok"] and len(r["out"]) > 1)
-    if r:
-        r["out"][-1][3] += 1
-        badrecs.append((r, "sum_to_one"))
-    r = pick(lambda r: r["fn"] == "klist" and r["ok"] and r["sym"] and 1 < len(r["out"]) < r["n"][0] * r["n"][1] * r["n"][2])
-    if r:      # a retained point replaced by another one: an orbit twice, another one lost
-        r["out"][-1][:3] = r["out"][0][:3]
-        badrecs.append((r, "same_up_to_symmetry"))
-    r = pick(lambda r: r["fn"] == "divide" and len(r["out"]) > 1)
-    if r:
-        r["out"][0][0] = (r["out"][0][0] + 1) % (2 * r["n"][0] * r["nd"][0] ** r["L"])
-        badrecs.append((r, "same_up_to_symmetry"))
-    r = pick(lambda r: r["fn"] == "exclude" and len(r["out"]) < len(r["inp"]))
-    if r:
-        r["out"][0][4] -= 1
-        badrecs.append((r, "weight_kept"))
-    r = pick(lambda r: r["fn"] == "refine" and r["sym"] and len(r["after"]) > len(r["before"]))
-    if r:      # a merged point put back: two equivalent live points, weight of the class unchanged in total but split
-        r["after"][-1][4] += 1
-        badrecs.append((r, "weight_kept"))
-    r = pick(lambda r: r["fn"] == "tsplit")
-    if r:
-        r["out"][0][1] += 1
-        badrecs.append((r, "split_exact"))
-    r = pick(lambda r: r["fn"] == "tgrid" and len(r["out"]) > 3)
-    if r:
-        del r["out"][-1]
-        badrecs.append((r, "volume_kept"))
-    if len(badrecs) < 5 and not rep.violations and usable and not W.SKIPPED:
-        raise MachineryError(f"binding self-test: only {len(badrecs)} kinds of records to corrupt")
     if badrecs:
-        _, b2 = ftable.validate_records("KMeshRec.tla", ftable.REC_CFG, [b for b, _ in badrecs], tag + "_selftest")
         missed = [(b["fn"], c) for j, (b, c) in enumerate(badrecs) if c not in b2.get(j, [])]
-        if missed:
+        if missed and not rep.violations:
             raise MachineryError(f"binding self-test failed: corrupted records accepted: {missed} (TLC: {b2})")
         rep.part("binding_selftest", corrupted_records_rejected={str(k_): [c for c in v if not c.startswith("info_")] for k_, v in b2.items()})
     return rep.finish()
